@@ -266,6 +266,76 @@ def ob_match(h):
         h.check("unmatched_levels_untouched", And(*[h.eq(a, b) for a, b in zip(after_h + after_c, before_h + before_c)]))
 
 
+def ob_match_u(h):
+    """MATCH for ANY number of hot (use) utilities against 1..2 cold (generation) utilities at arbitrary symbolic levels: the outer loop of
+    _match_utility_gen_and_use_at_same_level is cut with
+
+        INV(i):  every generation duty d_c satisfies 0 <= d_c <= d_c(0) and CP_c * span_c = d_c,   sum_c d_c = sum_c d_c(0) - R(i)
+        ghost    R(0) = 0,  R(i+1) = R(i) + (q(i) - q'(i))      what the first i use levels have given up (q'(i): duty of use level i after its turn)
+        element  0 <= q'(i) <= q(i),  CP_i * span_i = q'(i)
+
+    so at exit both sides have lost exactly R(n): the net utility duty is unchanged, nothing became negative, nothing grew."""
+    import z3
+    from pvc.loopcut import POISON, CutSeq
+    from pvc.sym import SymInt
+    nc = h.choice("cold_utilities", [1, 2])
+    n = SymInt(z3.Int("n_hot"))
+    h.assume(n >= 0)
+    I, Rs = z3.IntSort(), z3.RealSort()
+    q, ts, tt, R = (z3.Function(k, I, Rs) for k in ("use_duty", "use_t_supply", "use_t_target", "given_up"))
+    h.ctx.add_axiom(R(z3.IntVal(0)) == 0)
+    cts, ctt, cq = h.reals("cu_ts", nc), h.reals("cu_tt", nc), h.reals("cu_q", nc, lo=0)
+    for a, b in zip(cts, ctt):
+        h.assume(a < b)
+    cu = [_util(f"CU{j}", cts[j], ctt[j], cq[j]) for j in range(nc)]
+    total0 = sum(cq, 0.0)
+    zi = lambda i: i.z if isinstance(i, SymInt) else z3.IntVal(i)
+
+    def elem(i):
+        z = zi(i)
+        h.ctx.add_axiom(z3.And(q(z) >= 0, ts(z) > tt(z)))
+        return _util("HUi", SymReal(ts(z)), SymReal(tt(z)), SymReal(q(z)))
+
+    def inv(i, L):
+        out = [("generation_side_has_lost_what_the_use_side_gave_up", h.eq(sum([u._heat_flow for u in cu], 0.0), total0 - SymReal(R(zi(i)))))]
+        for j, u in enumerate(cu):
+            out.append(("duties_stay_non_negative", u._heat_flow >= 0))
+            out.append(("duties_never_increase", u._heat_flow <= cq[j]))
+            out.append(("heat_capacity_goes_with_the_duty", h.eq(u._CP * (u._t_max - u._t_min), u._heat_flow)))
+        return out
+
+    HEAP = ("_heat_flow", "_CP", "_RCP_prod", "_ut_cost")
+
+    def havoc(i, L):
+        for u in cu:
+            for a in HEAP:
+                setattr(u, a, h.fresh_real(a))
+        return {"u_c": POISON, "Q": POISON}
+
+    def ghost(i, L, e):
+        h.ctx.add_axiom(R(zi(i) + 1) == R(zi(i)) + (q(zi(i)) - e._heat_flow.z if isinstance(e._heat_flow, SymReal) else R(zi(i)) + q(zi(i)) - e._heat_flow))
+
+    def elem_post(i, L, e):
+        return [("duties_stay_non_negative", e._heat_flow >= 0), ("duties_never_increase", e._heat_flow <= SymReal(q(zi(i)))),
+                ("heat_capacity_goes_with_the_duty", h.eq(e._CP * (e._t_max - e._t_min), e._heat_flow)),
+                ("level_untouched", And(h.eq(e._t_supply, SymReal(ts(zi(i)))), h.eq(e._t_target, SymReal(tt(zi(i))))))]
+
+    coll_c = _coll(cu)
+    seq = CutSeq(h, "use_levels", n, elem, inv, havoc, modifies=lambda L: [(u, a) for u in cu + [seq_e[0]] for a in HEAP] + [(coll_c, "_sorted_cache"), (coll_c, "_needs_sort")],
+                 ghost=ghost, elem_post=elem_post)
+    seq_e = [None]
+    _elem = seq.elem
+    seq.elem = lambda i: seq_e.__setitem__(0, _elem(i)) or seq_e[0]
+    ii._match_utility_gen_and_use_at_same_level(seq, coll_c)
+    # ---- exit: both sides have lost R(n) ------------------------------------------------------------------------------------------------
+    Rn = SymReal(R(n.z))
+    h.check("generation_side_lost_exactly_what_the_use_side_gave_up", h.eq(sum([u.heat_flow for u in cu], 0.0), total0 - Rn))
+    for j, u in enumerate(cu):
+        h.check("duties_stay_non_negative", u.heat_flow >= 0)
+        h.check("duties_never_increase", u.heat_flow <= cq[j])
+        h.check("level_untouched", And(h.eq(u.t_supply, cts[j]), h.eq(u.t_target, ctt[j])))
+
+
 def ob_set_targets(h):
     a, b, c, d = h.real("Qh"), h.real("Qc"), h.real("Qr"), h.real("limit")
     tv = ii._set_sites_targets(a, b, c, d)
@@ -380,6 +450,11 @@ def obligations():
                    functions=[ii._get_site_utility_heat_cascade], max_paths=100000, doc="TS end values against utility duties; non-negativity; upper bounds"),
         Obligation("C02.match.b", ob_match, kind="bounded", bound="1..2 hot x 1..2 cold utilities, with and without a matching level, duties symbolic",
                    functions=[ii._match_utility_gen_and_use_at_same_level, Stream.set_heat_flow], max_paths=100000),
+        Obligation("C02.match.u", ob_match_u, kind="proof", functions=[ii._match_utility_gen_and_use_at_same_level, Stream.set_heat_flow], max_paths=100000,
+                   expect=("use_levels.base.duties_stay_non_negative", "use_levels.preserved.generation_side_has_lost_what_the_use_side_gave_up", "use_levels.element.duties_never_increase",
+                           "use_levels.frame", "generation_side_lost_exactly_what_the_use_side_gave_up"),
+                   bound="ANY number of use (hot) utilities at arbitrary levels (outer loop cut with an inductive invariant and a ghost sum); 1..2 generation (cold) utilities at symbolic levels",
+                   doc="MATCH for every number of use levels: both sides lose the same non-negative amount, nothing becomes negative or grows"),
         Obligation("C02.set_targets", ob_set_targets, kind="proof", functions=[ii._set_sites_targets]),
         Obligation("C02.ts.readout", ob_ts_readout, kind="proof", functions=[ii.compute_indirect_integration_targets, ii._get_site_process_heat_load_profiles],
                    stubs=("get_process_heat_cascade (any table)", "_get_site_utility_heat_cascade (any columns; contract C02.ts.cascade.b)", "_sum_subzone_targets (C02.tz.sum.b)",
